@@ -198,7 +198,8 @@ func runC01(t *vs.Tape, cfg map[string]string) (res vs.Result) {
 	defer runtime.GOMAXPROCS(old)
 	sim := vs.NewSim(vs.ModePark, t)
 	sim.MapOrderOn, sim.PoolOn = true, true
-	sim.MaxSteps = 100000
+	sim.ParkAtMapRange = nTasks > 1 && t.Chance("park.maprange", 2, 3)
+	sim.MaxSteps = 400000
 	outs := make([][]string, nTasks)
 	_, infra := vs.BubbleRun(fpT, sim, func() {
 		var wg sync.WaitGroup
